@@ -19,34 +19,8 @@ theorem C03B_unsync {p : Params} (hq : NoQuirks p)
     (hfit : hasEnoughCapacity p (p.weigh k v) (maintain p s).ws = true) :
     (∃ e, AL.get? (insert p s k v).map k = some e ∧ e.val = v) ∧
     (∀ k' e', AL.get? (maintain p s).map k' = some e' →
-      ∃ e'', AL.get? (insert p s k v).map k' = some e'' ∧ e''.val = e'.val) := by
-  obtain ⟨h1, _, h3⟩ := maintain_spec hq hi.inv
-  generalize hent : ({ val := v, weight := p.weigh k v } : UEntry) = entry0
-  have hao0 : entry0.ao = none := by rw [← hent]
-  have hwo0 : entry0.wo = none := by rw [← hent]
-  have hv0 : entry0.val = v := by rw [← hent]
-  have hsp := struct_put_pending (p := p) (entry := entry0) h1.struct hnew hao0 hwo0
-  obtain ⟨entry, hk3, e', hv', _, hmap, _⟩ :=
-    pushCandidate_spec (p.hash k) (opTs p (maintain p s)) hsp
-  have hins : (insert p s k v).map =
-      (pushCandidate p { maintain p s with map := AL.put (maintain p s).map k entry0 }
-        k (p.hash k) (opTs p (maintain p s))).map := by
-    unfold Unsync.insert
-    dsimp only
-    rw [hnew]
-    dsimp only
-    unfold handleInsert
-    dsimp only
-    rw [if_pos hfit, hent]
-    exact (maybeEnableSketch_frame p _).1
-  rw [hins, hmap]
-  have hent2 : entry = entry0 := by
-    simp only [AL.get?_put_self, Option.some.injEq] at hk3
-    exact hk3.symm
-  refine ⟨⟨e', AL.get?_put_self _ _ _, by rw [hv', hent2, hv0]⟩, ?_⟩
-  intro k' e2 h2
-  have hne : k ≠ k' := fun e => by rw [e, h2] at hnew; cases hnew
-  exact ⟨e2, by rw [AL.get?_put_ne _ hne, AL.get?_put_ne _ hne]; exact h2, rfl⟩
+      ∃ e'', AL.get? (insert p s k v).map k' = some e'' ∧ e''.val = e'.val) :=
+  Unsync.C03B_unsync_aux hq hi k v hnew hfit
 
 /-- The purge at the start of an operation drops only entries whose ttl or tti deadline has
 passed, as long as the cache is not over capacity (with no `max_capacity`: always). Together
